@@ -55,12 +55,14 @@ Definition check (c : c03case) : N :=
           let input_closed := match reach_addrs fuel H root with Done l => all_lt n_in l | _ => false end in
           (* Config path: the model of Pointerify's walk over the template terminates
              within the theorem's bound, and the input is inside its guard *)
-          let prk := compute_prk hin in
-          let P := rank_bound prk in
-          let Dw := Nat.max (heap_depth hin) (depth root) in
-          let walk_ok := (mode =? 0) ||
-                (wf_prankb hin P Dw prk && pwalk_root_ok n_in P Dw prk root &&
-                 match pwalk false (pwalk_fuel n_in P Dw) hin [] root with Done _ => true | _ => false end) in
+          let walk_ok :=
+            if mode =? 0 then true
+            else
+              let prk := compute_prk hin in
+              let P := rank_bound prk in
+              let Dw := Nat.max (heap_depth hin) (depth root) in
+              wf_prankb hin P Dw prk && pwalk_root_ok n_in P Dw prk root &&
+              match pwalk false (pwalk_fuel n_in P Dw) hin [] root with Done _ => true | _ => false end in
           if negb walk_ok then 1 else
           if faithful && fresh && input_closed then
             match m with
